@@ -234,7 +234,20 @@ def _abbrev_section():
     return out + b'\x00'
 
 
-def _gen_unit(rng, force=None):
+def _junk_header(rng, le):
+    """bytes that read like the header of a unit of an unsupported DWARF version (0, 1, 6, 9, 0xffff) with a plausible
+    address size: an offset-exact lookup handed this offset fails in the version check, after the header has been parsed"""
+    import struct
+    e = '<' if le else '>'
+    ver = rng.choice([0, 1, 6, 9, 0xffff])
+    ln = rng.choice([7, 8, 20, 0x100])
+    if ver >= 5:
+        return struct.pack(e + 'IHBBI', ln, ver, rng.choice([1, 2, 3]), rng.choice([4, 8]), 0)
+    return struct.pack(e + 'IHIB', ln, ver, 0, rng.choice([4, 8]))
+
+
+def _gen_unit(rng, force=None, junk_le=None):
+    """junk_le (a byte order): the DIE area is one DIE, then _junk_header bytes, then one more DIE"""
     is64 = rng.random() < 0.3
     version = rng.choice([2, 3, 4, 4, 5, 5])
     utype = rng.choice([1, 2, 3, 4, 5, 6]) if version >= 5 else 0
@@ -245,6 +258,8 @@ def _gen_unit(rng, force=None):
     for i in range(ndies):
         c = rng.choice([1, 1, 2, 3, 200, 0]) if i else rng.choice([1, 2, 3, 200])
         body += bytes([c]) if c < 128 else bytes([(c & 0x7f) | 0x80, c >> 7])
+    if junk_le is not None:
+        body = bytes([rng.choice([1, 2, 3])]) + _junk_header(rng, junk_le) + bytes([rng.choice([1, 2, 3, 0])])
     has_id = utype in (2, 4, 5, 6)
     has_to = utype in (2, 6)
     return [is64, version, utype, 0, rng.choice([4, 8]), rng.getrandbits(64) if has_id else 0,
@@ -277,6 +292,40 @@ def _sweep_ops(rng, units, extra_at=True):
                 ops.append(['die', s, d])
     rng.shuffle(ops)
     return ops
+
+
+def _failing_history(rng, le):
+    """a history in which offset-exact lookups FAIL between valid ones: at the offset of junk-header bytes inside a DIE area
+    (unsupported version), in the last three bytes of the section (truncated header), outside the section; units at higher
+    offsets are cached before the failure, the failing lookup is sometimes repeated, and every offset is swept afterwards"""
+    n = rng.choice([2, 3, 3, 4, 5, 6])
+    junky = set(rng.sample(range(n), rng.randint(1, min(n, 2))))
+    units = [_gen_unit(rng, junk_le=le if k in junky else None) for k in range(n)]
+    starts, size = _unit_starts(units)
+    hdrs = [_unit_size(u)[1] for u in units]
+    def valid_op():
+        k = rng.randrange(n)
+        return rng.choice([['containing', rng.randrange(size)], ['containing', starts[k]], ['at', starts[k]],
+                           ['die', starts[k], starts[k] + hdrs[k]]])
+    fails = []
+    for k in sorted(junky):
+        j = starts[k] + hdrs[k] + 1
+        fails += [['at', j], ['die', j, j + 1]]
+    fails += [['at', size - 1 - rng.randrange(3)], ['at', size + rng.choice([0, 1, 100])]]
+    rng.shuffle(fails)
+    fails = fails[:rng.randint(1, len(fails))]
+    ops = [['at', starts[k]] for k in rng.sample(range(n), rng.randint(0, n))]      # cached before the failure, any order
+    if rng.random() < 0.5:
+        ops.append(['containing', rng.choice([size - 1, rng.randrange(size)])])
+    for f in fails:
+        ops.append(list(f))
+        ops += [valid_op() for _ in range(rng.randint(0, 3))]
+        if rng.random() < 0.3:
+            ops.append(list(f))
+    tail = [['containing', r] for r in range(size)] + [['at', s_] for s_ in starts] + \
+           [['die', starts[k], starts[k] + hdrs[k]] for k in range(n)]
+    rng.shuffle(tail)
+    return [le, units, ops + tail]
 
 
 def corpus(ctx):
@@ -367,6 +416,16 @@ def gen(ctx):
         # the other normal forms of every encoded name are queried too: absent unless encoded themselves
         queries = sorted(set(names) | {v for nm in set(names) for v in _normal_forms(nm)}) + [b'absent', b'', 'nichtäda'.encode('utf-8')]
         cases.append(('names_table', [le, rng.choice(['pubnames', 'pubtypes']), sets, queries]))
+    for i in range(3 * T):           # tables larger than the 8192-byte read buffer of a real file object
+        le = rng.random() < 0.7
+        sets = []
+        for _ in range(rng.choice([1, 2, 3])):
+            entries = [[rng.randrange(1, 2 ** 32), b'n%d_' % j + bytes(rng.choice(b'abcdefgh') for _ in range(rng.randint(0, 70)))]
+                       for j in range(rng.randint(120, 200))]
+            sets.append([2, rng.randrange(2 ** 32), rng.randrange(2 ** 32), entries, b''])
+        names = [e[1] for st in sets for e in st[3]]
+        cases.append(('names_table', [le, rng.choice(['pubnames', 'pubtypes']), sets, rng.sample(names, 20) + [b'absent'],
+                                      rng.choice(['file', 'file_warm', 'file_end', 'gzip'])]))
     for i in range(6 * T):
         sets = _gen_name_sets(rng, rng.choice([1, 2]))
         cases.append(('names_trunc', [True, sets, rng.randrange(1, 30)]))
@@ -411,6 +470,9 @@ def gen(ctx):
                 ops.append(['die', k * U, k * U + hdr])
         ops += [['containing', 0], ['containing', size - 1], ['containing', size], ['containing', rng.randrange(size)]]
         cases.append(('units_many', [rng.random() < 0.7, u, n, ops]))
+    # failed lookups between valid ones (the answers of the valid ones must not change)
+    for i in range(50 * T):
+        cases.append(('units_history', _failing_history(rng, rng.random() < 0.7)))
     # out of domain: offset-exact lookups at arbitrary offsets (garbage units enter the cache)
     for i in range(10 * T):
         units = [_gen_unit(rng) for _ in range(rng.choice([2, 3]))]
@@ -418,7 +480,22 @@ def gen(ctx):
         ops = [['at', rng.randrange(size)] for _ in range(3)] + [['containing', rng.randrange(size)] for _ in range(6)]
         rng.shuffle(ops)
         cases.append(('units_history', [True, units, ops]))
-    return cases
+    # the kind of stream the section is handed over in (last element of the abstract): every kind presents the same bytes
+    from tools.lib.streams import draw_kind
+    out = []
+    for kind, a in cases:
+        if _split_kind(a)[1] is None:
+            a = a + [rng.choice(['bytesio', 'file', 'file_small', 'mmap']) if kind == 'units_many' else draw_kind(rng, 0.5)]
+        out.append((kind, a))
+    return out
+
+
+def _split_kind(a):
+    """(abstract without the stream kind, stream kind or None)"""
+    from tools.lib.streams import KINDS
+    if a and isinstance(a[-1], str) and a[-1] in KINDS:
+        return a[:-1], a[-1]
+    return a, None
 
 
 # --------------------------------------------------------------------------------------------- implementation side
@@ -442,13 +519,16 @@ def _stock_interpreter(f):
     return g
 
 
-def _dwarfinfo(le, addr_size, **secs):
+_S = None        # the Streams() of the running evaluate()
+
+
+def _dwarfinfo(le, addr_size, skind, **secs):
     from elftools.dwarf.dwarfinfo import DWARFInfo, DebugSectionDescriptor, DwarfConfig
     def sec(name):
         data = secs.get(name)
         if data is None:
             return None
-        return DebugSectionDescriptor(stream=io.BytesIO(data), name='.' + name, global_offset=0, size=len(data), address=0)
+        return DebugSectionDescriptor(stream=_S.open(data, skind), name='.' + name, global_offset=0, size=len(data), address=0)
     names = ['debug_info', 'debug_aranges', 'debug_abbrev', 'debug_frame', 'eh_frame', 'debug_str', 'debug_loc', 'debug_ranges',
              'debug_line', 'debug_pubtypes', 'debug_pubnames', 'debug_addr', 'debug_str_offsets', 'debug_line_str',
              'debug_loclists', 'debug_rnglists', 'debug_sup', 'gnu_debugaltlink', 'debug_types']
@@ -461,9 +541,9 @@ def _entry_obs(e):
 
 
 @_stock_interpreter
-def _impl_aranges(le, data, addrs, addr_size):
+def _impl_aranges(le, data, addrs, addr_size, skind):
     def build():
-        return _dwarfinfo(le, addr_size, debug_aranges=data).get_aranges()
+        return _dwarfinfo(le, addr_size, skind, debug_aranges=data).get_aranges()
     ar = impl_call(build)
     if isinstance(ar, list) and ar[:1] == ['err']:
         return ar, ar
@@ -479,9 +559,9 @@ def _impl_aranges(le, data, addrs, addr_size):
 
 
 @_stock_interpreter
-def _impl_names(le, which, data, queries, addr_size):
+def _impl_names(le, which, data, queries, addr_size, skind):
     def run():
-        di = _dwarfinfo(le, addr_size, **{'debug_' + which: data})
+        di = _dwarfinfo(le, addr_size, skind, **{'debug_' + which: data})
         lut = di.get_pubnames() if which == 'pubnames' else di.get_pubtypes()
         qs = [q.decode('utf-8') for q in queries]
         getitems = []
@@ -516,9 +596,9 @@ def _cu_obs(cu):
 
 
 @_stock_interpreter
-def _impl_history(le, info, ops, addr_size):
+def _impl_history(le, info, ops, addr_size, skind):
     from elftools.dwarf.namelut import NameLUTEntry
-    di = _dwarfinfo(le, addr_size, debug_info=info, debug_abbrev=_abbrev_section())
+    di = _dwarfinfo(le, addr_size, skind, debug_info=info, debug_abbrev=_abbrev_section())
     out = []
     for op in ops:
         if op[0] == 'containing':
@@ -539,7 +619,23 @@ def _impl_history(le, info, ops, addr_size):
 
 # --------------------------------------------------------------------------------------------- evaluate
 def evaluate(ctx, cases):
+    from tools.lib.streams import Streams
+    global _S
+    with Streams(prefix='pv-streams-c13-') as S:
+        _S = S
+        try:
+            _evaluate(ctx, cases, S)
+        finally:
+            _S = None
+
+
+FAIL_CLASSES = ('DWARFError', 'ELFParseError')      # raised through dwarf_assert / struct_parse, also under python -O
+
+
+def _evaluate(ctx, full, S):
     drv = ctx.driver
+    cases = [(kind, _split_kind(a)[0]) for kind, a in full]
+    skinds = [_split_kind(a)[1] or 'bytesio' for kind, a in full]
     # pass 1: bytes and domain certificates from the Coq spec
     reqs = []
     for kind, a in cases:
@@ -555,43 +651,55 @@ def evaluate(ctx, cases):
         else:
             raise ValueError(kind)
     ans = drv.batch(reqs)
-    # pass 2: model and spec answers
+    # pass 2: model and spec answers (three requests per case)
+    NOP = ['wf_names', []]
     reqs2 = []
     work = []
     for i, (kind, a) in enumerate(cases):
         data, wf, third = ans[3 * i], ans[3 * i + 1], ans[3 * i + 2]
         w = {'data': data, 'wf': bool(wf)}
         if kind == 'aranges_entries':
-            reqs2 += [['aranges_model', a[0], data, len(data)], ['aranges_spec', a[1]]]
+            reqs2 += [['aranges_model', a[0], data, len(data)], ['aranges_spec', a[1]], NOP]
         elif kind == 'aranges_lookup':
             w['disjoint'] = bool(third)
-            reqs2 += [['lookup_model', a[0], data, len(data), a[2]], ['lookup_spec', a[1], a[2]]]
+            reqs2 += [['lookup_model', a[0], data, len(data), a[2]], ['lookup_spec', a[1], a[2]], NOP]
         elif kind == 'aranges_trunc':
             w['data'] = data = data[:max(0, len(data) - a[2])]
-            reqs2 += [['aranges_model', a[0], data, len(data)], ['aranges_spec', []]]
+            reqs2 += [['aranges_model', a[0], data, len(data)], ['aranges_spec', []], NOP]
         elif kind == 'names_table':
-            reqs2 += [['names_model', a[0], data, len(data), a[3]], ['names_spec', a[2], a[3]]]
+            reqs2 += [['names_model', a[0], data, len(data), a[3]], ['names_spec', a[2], a[3]], NOP]
         elif kind == 'names_trunc':
             w['data'] = data = data[:max(0, len(data) - a[2])]
-            reqs2 += [['names_model', a[0], data, len(data), []], ['names_spec', [], []]]
+            reqs2 += [['names_model', a[0], data, len(data), []], ['names_spec', [], []], NOP]
         elif kind == 'units_history':
             w['starts'] = [c[0] for c in third]
-            reqs2 += [['di_run', a[0], data, len(data), a[2]], ['di_spec', a[0], a[1], a[2]]]
+            st_ = set(w['starts'])
+            w['invalid'] = [j for j, op in enumerate(a[2]) if op[0] != 'containing' and op[1] not in st_]
+            reqs2 += [['di_run', a[0], data, len(data), a[2]], ['di_spec', a[0], a[1], a[2]],
+                      ['di_fresh', a[0], data, len(data), [a[2][j] for j in w['invalid']]]]
         elif kind == 'units_many':
             U = _unit_size(a[1])[0]
             assert len(data) == a[2] * U
             w['starts'] = range(0, a[2] * U, U)
-            reqs2 += [['di_run', a[0], data, len(data), a[3]], ['di_spec', a[0], [a[1]] * a[2], a[3]]]
+            st_ = set(w['starts'])
+            w['invalid'] = [j for j, op in enumerate(a[3]) if op[0] != 'containing' and op[1] not in st_]
+            reqs2 += [['di_run', a[0], data, len(data), a[3]], ['di_spec', a[0], [a[1]] * a[2], a[3]],
+                      ['di_fresh', a[0], data, len(data), [a[3][j] for j in w['invalid']]]]
         work.append(w)
     ans2 = drv.batch(reqs2)
     for i, ((kind, a), w) in enumerate(zip(cases, work)):
-        model, spec = ans2[2 * i], ans2[2 * i + 1]
+        model, spec, fresh = ans2[3 * i], ans2[3 * i + 1], ans2[3 * i + 2]
         data = w['data']
+        sk, afull = skinds[i], full[i][1]
+        if i % 150 == 149:
+            S.drop_files()
+        ctx.bump('stream_kind', sk)
+        ctx.bump('stream_kind:' + kind.split('_')[0], sk)
         addr_size = 4 if (len(data) + i) % 2 else 8
         key = None
         ctx.bump('kind', kind)
         if kind == 'aranges_entries':
-            impl, _ = _impl_aranges(a[0], data, [], addr_size)
+            impl, _ = _impl_aranges(a[0], data, [], addr_size, sk)
             spec = ['ok', spec]
             ntup = sum(len(st[4]) for st in a[1])
             off_grid = _off_grid(a[1])
@@ -607,10 +715,10 @@ def evaluate(ctx, cases):
             ctx.bump('address_sizes', '+'.join(str(z) for z in sorted({st[2] for st in a[1]})) or 'none')
             ctx.bump('set_starts', 'all multiples of the tuple size' if not off_grid else
                      'off the tuple grid, odd' if any(o % 2 for o in off_grid) else 'off the tuple grid')
-            ctx.record(kind, a, impl=impl, spec=spec, model=model, in_domain=w['wf'], nontrivial=ntup > 0,
+            ctx.record(kind, afull, impl=impl, spec=spec, model=model, in_domain=w['wf'], nontrivial=ntup > 0,
                        key=K_PAD if off_grid else None)
         elif kind == 'aranges_lookup':
-            _, impl = _impl_aranges(a[0], data, a[2], addr_size)
+            _, impl = _impl_aranges(a[0], data, a[2], addr_size, sk)
             ntup = sum(len(st[4]) for st in a[1])
             if _off_grid(a[1]) and impl[:1] == ['err']:      # the table itself was not read (label only)
                 key = K_PAD
@@ -623,13 +731,13 @@ def evaluate(ctx, cases):
             if isinstance(spec, list):
                 for s in spec:
                     ctx.bump('lookup_answer', 'none' if s == ['ok', 'none'] else 'some')
-            ctx.record(kind, a, impl=impl, spec=spec, model=model, in_domain=w['wf'] and w['disjoint'],
+            ctx.record(kind, afull, impl=impl, spec=spec, model=model, in_domain=w['wf'] and w['disjoint'],
                        nontrivial=True, key=key)
         elif kind == 'aranges_trunc':
-            impl, _ = _impl_aranges(a[0], data, [], addr_size)
-            ctx.record(kind, a, impl=impl, spec=model, model=model, in_domain=False, nontrivial=True)
+            impl, _ = _impl_aranges(a[0], data, [], addr_size, sk)
+            ctx.record(kind, afull, impl=impl, spec=model, model=model, in_domain=False, nontrivial=True)
         elif kind == 'names_table':
-            impl = _impl_names(a[0], a[1], data, a[3], addr_size)
+            impl = _impl_names(a[0], a[1], data, a[3], addr_size, sk)
             items, hdrs, gets = spec
             spec_full = ['ok', [items, hdrs, gets,
                                 [['err', 'KeyError'] if g == 'none' else ['ok', g[1]] for g in gets],
@@ -645,21 +753,28 @@ def evaluate(ctx, cases):
             nn = [n for n in set(names) if _normal_forms(n)]
             ctx.bump('normal_forms', 'all names NFC = NFD' if not nn else 'two spellings of one name encoded'
                      if any(v in names for n in nn for v in _normal_forms(n)) else 'names with another normal form')
-            ctx.record(kind, a, impl=impl, spec=spec_full, model=model, in_domain=w['wf'], nontrivial=nent > 0)
+            ctx.record(kind, afull, impl=impl, spec=spec_full, model=model, in_domain=w['wf'], nontrivial=nent > 0)
         elif kind == 'names_trunc':
-            impl = _impl_names(a[0], 'pubnames', data, [], addr_size)
-            ctx.record(kind, a, impl=impl, spec=model, model=model, in_domain=False, nontrivial=True)
+            impl = _impl_names(a[0], 'pubnames', data, [], addr_size, sk)
+            ctx.record(kind, afull, impl=impl, spec=model, model=model, in_domain=False, nontrivial=True)
         elif kind in ('units_history', 'units_many'):
             ops = a[2] if kind == 'units_history' else a[3]
             nunits = len(a[1]) if kind == 'units_history' else a[2]
-            impl = _impl_history(a[0], data, ops, addr_size)
-            starts = set(w['starts'])
-            valid = all(op[0] == 'containing' or op[1] in starts for op in ops)
+            impl = _impl_history(a[0], data, ops, addr_size, sk)
+            # a lookup that is not valid (offset-exact at an offset where no unit starts) is in the domain when a FRESH object
+            # fails on it with DWARFError / ELFParseError: it must fail the same way in every state and leave the answers of
+            # the valid lookups unchanged (C13_history_with_failed_lookups); its expected answer is the fresh object's
+            fresh_of = dict(zip(w['invalid'], fresh))
+            valid = all(f[:1] == ['err'] and f[1] in FAIL_CLASSES for f in fresh)
+            if valid:
+                spec = [fresh_of.get(j, y) for j, y in enumerate(spec)]
+            ctx.bump('failed_lookups_in_history', (len(w['invalid']) if len(w['invalid']) < 6 else '6+') if valid
+                     else 'out of domain')
             for j, (x, y) in enumerate(zip(impl, spec)):
                 if x != y:
                     key = 'units:' + ops[j][0]
                     break
             ctx.bump('units', nunits if nunits < 10 else '1000+' if nunits >= 1000 else '10+')
             ctx.bump('history_len', len(ops) if len(ops) < 10 else '%d0+' % (len(ops) // 10))
-            ctx.record(kind, a, impl=impl, spec=spec, model=model, in_domain=w['wf'] and valid,
+            ctx.record(kind, afull, impl=impl, spec=spec, model=model, in_domain=w['wf'] and valid,
                        nontrivial=nunits >= 2 or len(ops) > 4, key=key)
